@@ -1475,3 +1475,89 @@ def use_after_move(run, fns, rule='R1', inst='no-deref-after-move'):
                               '%s is dereferenced at line %s after std::move(%s) at line %s gave its contents away: the pointer is null there - a crash (or, under a sanitizer, "member access within null pointer") on the path that reaches it'
                               % (rb, d.get('l'), ra, mv.get('l')))
     return n
+
+
+# ---------------------------------------------------------------------------------------------------------------------
+# sizes of user buffers are not narrowed to int before they are bounded
+def user_sizes_not_narrowed(run, fns, rule='R11', inst='user-size-not-narrowed'):
+    """The size of a buffer the USER hands in (const_buffer / mutable_buffer ::size(), boost::asio::buffer_size, or a
+    std::size_t local accumulating them) can exceed INT_MAX.  Converting it to int as it is turns 2 GiB into a negative
+    number (a write that skips the buffer, a memcpy with a negative length) and 4 GiB + k into k (a 4 GiB datagram that
+    passes the 65535 test).  A conversion to int is applied only to a std::min(...) of such a size with something else
+    (the bound), never to the size itself.  Returns the number of conversions judged."""
+    n = 0
+    BUF = ('const_buffer', 'mutable_buffer')
+    for g in fns:
+        if g.cfg is None:
+            continue
+        tainted = set()
+
+        def is_tainted(e, depth=0):
+            for x in walk(e):
+                if x['k'] == 'call':
+                    cn = (q.callee_name(x) or '').split('<')[0]
+                    if cn.endswith('const_buffer::size') or cn.endswith('mutable_buffer::size') or cn.endswith('buffer_size'):
+                        return True          # the size OF a buffer (whatever it is reached through), not the number of buffers in a sequence
+                if x['k'] == 'ref' and x.get('dk') == 'local' and x.get('did') in tainted:
+                    return True
+            return False
+        changed = True
+        while changed:
+            changed = False
+            for nd in g.all_nodes():
+                tgt = rhs = None
+                if nd['k'] == 'decl':
+                    for v in nd['vars']:
+                        if v.get('init') is not None and v['did'] not in tainted and 't' in v and 'int' not in g.ty(v['t']).split() and ('size_t' in g.ty(v['t']) or 'unsigned long' in g.ty(v['t'])) and is_tainted(v['init']):
+                            tainted.add(v['did']); changed = True
+                    continue
+                if nd['k'] == 'bin' and nd['op'] in ('=', '+='):
+                    tgt, rhs = nd['lhs'], nd['rhs']
+                elif nd['k'] == 'call' and nd.get('opc') in ('=', '+=') and len(nd.get('args', [])) == 2:
+                    tgt, rhs = nd['args']
+                t0 = q.strip_casts(tgt) if tgt is not None else None
+                if is_node(t0) and t0['k'] == 'ref' and t0.get('dk') == 'local' and t0['did'] not in tainted and 't' in t0 and ('size_t' in g.ty(t0['t']) or 'unsigned long' in g.ty(t0['t'])) and is_tainted(rhs):
+                    tainted.add(t0['did']); changed = True
+        for c in g.all_nodes():
+            if c['k'] != 'cast' or 't' not in c or g.ty(c['t']).replace('const ', '').strip() != 'int' or not is_node(c.get('e')):
+                continue
+            e = c['e']
+            e0 = q.strip_casts(e)
+            ety = g.ty(e0['t']) if is_node(e0) and 't' in e0 else ''
+            if not ('size_t' in ety or 'unsigned long' in ety or 'size_type' in ety):
+                continue
+            if not is_tainted(e):
+                continue
+            # a value that is only accumulated and never read decides nothing
+            par = g.parent(c)
+            hops_ = 0
+            while is_node(par) and par['k'] in ('cast', 'paren') and hops_ < 4:
+                par = g.parent(par); hops_ += 1
+            if is_node(par) and ((par['k'] == 'bin' and par['op'] in ('=', '+=')) or par['k'] == 'decl'):
+                tl = q.strip_casts(par['lhs']) if par['k'] == 'bin' else None
+                did_ = tl.get('did') if is_node(tl) and tl['k'] == 'ref' and tl.get('dk') == 'local' else None
+                if did_ is not None:
+                    writes = {id(q.strip_casts(x['lhs'])) for x in g.all_nodes() if x['k'] == 'bin' and x['op'].endswith('=') and x['op'] not in ('==', '!=', '<=', '>=')}
+                    reads = [x for x in g.all_nodes() if x['k'] == 'ref' and x.get('did') == did_ and id(x) not in writes]
+                    if not reads:
+                        continue
+            n += 1
+            run.touch(g)
+            mm = _minmax(g, e0)
+            ok = bool(mm) and mm[0] == 'min'
+            if not ok:
+                # ... or already bounded by a dominating comparison with a constant (the early return of the size check)
+                r_ = q.render(g, e0)
+                for at, pol in q.guards_at(g, c):
+                    cm = q.cmp_atom(at)
+                    if not cm:
+                        continue
+                    for l_, rr_, op_ in ((cm[1], cm[2], cm[0]), (cm[2], cm[1], q.SWAP[cm[0]])):
+                        if q.render(g, q.strip_casts(l_)) == r_ and isinstance(q.const_eval(g, rr_, lambda t: None), int):
+                            eff = op_ if pol else q.NEG[op_]
+                            if eff in ('<', '<='):
+                                ok = True
+            run.check(ok, rule, inst, '%s: int(%s)' % (g.norm, q.render(g, e0)[:50]), g.loc(c),
+                      'the size of a buffer handed in by the user (%s) is converted to int as it is: for a buffer of 2 GiB or more it becomes negative (the write skips the buffer and reports the bytes of the next one; the copy length is negative) and 4 GiB + k becomes k (a 4 GiB datagram passes the 65535 limit)' % q.render(g, e0)[:60],
+                      'narrowed only after std::min with a bound, or under a dominating upper bound')
+    return n
